@@ -1,4 +1,90 @@
 (* C10 — Consensus output matches an independent reference implementation.
-   Theorems are added below as they are proved (see proofs/BftCore*.v). *)
+   The reference is spec/ElectionSpec.v (extracted and run against the real abft on every check).
+   Proved here, for ALL validator sets and ALL event sets accepted by the rules:
+     - the tabulated election of the reference computes exactly the rule-level votes / decisions
+       (Atropos soundness and completeness w.r.t. the recursive definition of the rules);
+     - under forkers < 1/3: decisions are unique, the voted root is unique (the BFT core);
+     - the reference is a function of the event SET: two parents-first orders of the same events
+       give the same blocks (so "the reference's output" is well defined).
+   C10_full (impl = reference) is the refinement obligation [impl_refines_spec] for the line-by-line
+   model of abft (owned by another worker); it is tested on every generated scenario. *)
 From Coq Require Import NArith List.
-From LV Require Import spec.ElectionSpec.
+From LV Require Import model.VecIndex lib.WSumBft spec.ElectionSpec proofs.BftCore proofs.BftElection
+  proofs.BftMono proofs.BftGraph proofs.BftMain proofs.BftRun proofs.BftProps.
+Import ListNotations.
+Local Open Scope N_scope.
+
+(* ---- the reference tabulates the rules: generic in the event type, no BFT hypothesis ---- *)
+Theorem C10_atropos_sound_partial :
+  forall (X : Type) (xid : X -> N) (cr : X -> nat) (fr spf : X -> N) (fc : X -> X -> bool)
+         (ws : list N) (q : N) (order : list nat) (evs : list X) (f0 : N),
+    (forall x y, In x evs -> In y evs -> xid x = xid y -> x = y) ->
+    forall maxf a, decide X xid cr fr spf fc ws q order evs f0 maxf = Atropos a ->
+    exists pre v post x, order = pre ++ v :: post
+      /\ (forall u, In u pre -> exists k r, decides X cr fr spf fc ws q evs f0 k r u false)
+      /\ (exists k r, decides X cr fr spf fc ws q evs f0 k r v true)
+      /\ voted_root X cr fr spf fc evs f0 v = Some x /\ xid x = a.
+Proof. exact decide_sound. Qed.
+
+Theorem C10_atropos_complete_partial :
+  forall (X : Type) (xid : X -> N) (cr : X -> nat) (fr spf : X -> N) (fc : X -> X -> bool)
+         (ws : list N) (q : N) (order : list nat) (evs : list X) (f0 : N),
+    (forall x y, In x evs -> In y evs -> xid x = xid y -> x = y) ->
+    forall maxf pre v post x,
+    (forall k1 r1 k2 r2 u b1 b2, decides X cr fr spf fc ws q evs f0 k1 r1 u b1 ->
+                                 decides X cr fr spf fc ws q evs f0 k2 r2 u b2 -> b1 = b2) ->
+    (forall e, In e evs -> fr e <= maxf) ->
+    order = pre ++ v :: post -> (forall u, In u (pre ++ [v]) -> (u < length ws)%nat) ->
+    (forall u, In u pre -> exists k r, decides X cr fr spf fc ws q evs f0 k r u false) ->
+    (exists k r, decides X cr fr spf fc ws q evs f0 k r v true) ->
+    voted_root X cr fr spf fc evs f0 v = Some x ->
+    decide X xid cr fr spf fc ws q order evs f0 maxf = Atropos (xid x).
+Proof. exact decide_complete. Qed.
+
+(* ---- BFT core on the reference's tables: forkers < 1/3 => decisions and voted roots are unique ---- *)
+Theorem C10_decision_unique :
+  forall vals T, wfT vals T -> few_forkers vals T ->
+  forall f0 k1 r1 k2 r2 v b1 b2,
+    decides node nd_cr nd_fr nd_spf (fc_n (map snd vals) (quorum_of (map snd vals))) (map snd vals)
+            (quorum_of (map snd vals)) T f0 k1 r1 v b1 ->
+    decides node nd_cr nd_fr nd_spf (fc_n (map snd vals) (quorum_of (map snd vals))) (map snd vals)
+            (quorum_of (map snd vals)) T f0 k2 r2 v b2 -> b1 = b2.
+Proof. exact ref_decision_unique. Qed.
+
+Theorem C10_voted_root_unique :
+  forall vals T, wfT vals T -> few_forkers vals T ->
+  forall f0 a1 a2 r1 r2, In r1 T -> In r2 T ->
+    In a1 (roots_at node nd_fr nd_spf T f0) -> In a2 (roots_at node nd_fr nd_spf T f0) -> nd_cr a1 = nd_cr a2 ->
+    fc_n (map snd vals) (quorum_of (map snd vals)) r1 a1 = true ->
+    fc_n (map snd vals) (quorum_of (map snd vals)) r2 a2 = true -> a1 = a2.
+Proof. exact ref_voted_root_unique. Qed.
+
+(* an accepted run builds a well-formed table: the hypotheses above are met by every valid input *)
+Theorem C10_accepted_run_wf : forall vals D, all_accepted vals D -> wfT vals (table vals D).
+Proof. intros vals D H. exact (wfTD_wfT vals _ _ (table_wfTD vals D H)). Qed.
+
+(* ---- the reference is a function of the event set ---- *)
+Theorem C10_reference_order_independent :
+  forall vals D1 D2, all_accepted vals D1 -> all_accepted vals D2 -> incl D1 D2 -> incl D2 D1 ->
+    few_forkers vals (table vals D2) -> snd (reference vals D1) = snd (reference vals D2).
+Proof. exact reference_same_set. Qed.
+
+(* ---- full statement, relative to the model of the implementation ---- *)
+Definition C10_full : impl_model -> Prop := BftProps.C10_full.
+Theorem C10_full_is_refinement : forall run, impl_refines_spec run -> C10_full run.
+Proof. intros run H. exact H. Qed.
+
+(* non-vacuity: a generated DAG (4 validators, 48 events, one forking validator) is a valid run,
+   decides two blocks, the second one names the forker; a reordering of it is accepted as well *)
+Example C10_example_valid : valid_run ex_vals ex_D /\ all_accepted ex_vals ex_D' /\
+  snd (reference ex_vals ex_D) = [(1, 0, []); (2, 15, [37094])] /\
+  existsb (forker (table ex_vals ex_D)) (seq 0 4) = true.
+Proof. exact (conj ex_valid (conj ex_accepted' (conj ex_blocks ex_has_forker))). Qed.
+
+Print Assumptions C10_atropos_sound_partial.
+Print Assumptions C10_atropos_complete_partial.
+Print Assumptions C10_decision_unique.
+Print Assumptions C10_voted_root_unique.
+Print Assumptions C10_accepted_run_wf.
+Print Assumptions C10_reference_order_independent.
+Print Assumptions C10_full_is_refinement.
